@@ -144,7 +144,9 @@ pub fn gen_graph(g: &mut G, max_len: usize) -> Graph {
                 ),
                 5 => (
                     *g.pick(FOLLOWED),
-                    Some((*g.pick(&["ftp://a.test/x", "mailto:x@y.test", "data:text/plain,hi", "file:///etc/passwd"])).to_string()),
+                    // some of them name a port where a server listens (ws: and gopher: with the listeners' ports,
+                    // an explicit port after ftp:): following such a URL with an HTTP request is not an option
+                    Some((*g.pick(&["ftp://a.test/x", "mailto:x@y.test", "data:text/plain,hi", "file:///etc/passwd", "ftp://b.test:8080/x", "ws://a.test/x", "gopher://c.test:80/n", "wss://b.test:8080/"])).to_string()),
                     "non-http-location",
                     Next::NonHttp,
                 ),
@@ -280,14 +282,106 @@ pub fn scenario(g: &mut G, ctx: &RunCtx) -> RunReport {
     let seen = Arc::new(Mutex::new(Seen::default()));
     install_graph(&sim, &gr, &seen);
     let url0 = gr.nodes[0].url.clone();
-    let eff_max = if default_max { 5 } else { max };
-    let out = sim.run(|| {
-        let mut rb = attohttpc::get(&url0);
-        if !default_max {
-            rb = rb.max_redirections(max);
+    // the two settings are independent: whatever the order of the calls, wherever they are made (session
+    // or request) and however often, the last value of each one counts
+    #[derive(Clone, Copy, Debug)]
+    enum Set {
+        Max(u32),
+        Follow(bool),
+    }
+    let mut prog: Vec<(bool, Set)> = Vec::new();
+    if !default_max {
+        prog.push((false, Set::Max(max)));
+    }
+    if !follow {
+        prog.push((false, Set::Follow(false)));
+    }
+    // drawn after the graph so that earlier recorded tapes keep their meaning (0 = the plain program above)
+    let variant = g.below(6);
+    if variant != 0 {
+        g.probe("redirect-setters-in-a-drawn-order");
+        let other_max = *g.pick(&[0u32, 1, 3, 9]);
+        match variant {
+            // the opposite order
+            1 => prog.reverse(),
+            // an earlier value that is overwritten later
+            2 => {
+                prog.insert(0, (false, Set::Follow(!follow)));
+                prog.insert(0, (false, Set::Max(other_max)));
+                if follow {
+                    prog.push((false, Set::Follow(true)));
+                }
+                if default_max {
+                    prog.push((false, Set::Max(5)));
+                }
+            }
+            // on the session instead of the request
+            3 => {
+                for p in prog.iter_mut() {
+                    p.0 = true;
+                }
+                prog.reverse();
+            }
+            // the session says something else, the request overrides
+            4 => {
+                prog.insert(0, (true, Set::Max(other_max)));
+                prog.insert(0, (true, Set::Follow(!follow)));
+                if follow {
+                    prog.push((false, Set::Follow(true)));
+                }
+                if default_max {
+                    prog.push((false, Set::Max(5)));
+                }
+            }
+            // following switched off and on again around the limit
+            _ => {
+                prog.push((false, Set::Follow(false)));
+                prog.push((false, Set::Follow(follow)));
+                prog.insert(0, (true, Set::Follow(false)));
+            }
         }
-        if !follow {
-            rb = rb.follow_redirects(false);
+        // the reference is the last value of each setting (request after session); make sure it is the intended one
+        prog.push((false, Set::Follow(follow)));
+        if g.chance(1, 2) {
+            let n = prog.len();
+            prog.swap(n - 1, n.saturating_sub(2));
+        }
+    }
+    let eff = |prog: &[(bool, Set)]| -> (bool, u32) {
+        let (mut f, mut m) = (true, 5u32);
+        for on_session in [true, false] {
+            for (s, op) in prog {
+                if *s == on_session {
+                    match op {
+                        Set::Max(n) => m = *n,
+                        Set::Follow(b) => f = *b,
+                    }
+                }
+            }
+        }
+        (f, m)
+    };
+    let (follow, eff_max) = eff(&prog);
+    let prog2 = prog.clone();
+    let out = sim.run(|| {
+        let mut session = attohttpc::Session::new();
+        session.proxy_settings(attohttpc::ProxySettings::builder().build());
+        for (on_session, op) in &prog2 {
+            if *on_session {
+                match op {
+                    Set::Max(n) => session.max_redirections(*n),
+                    Set::Follow(b) => session.follow_redirects(*b),
+                }
+            }
+        }
+        let mut rb = if prog2.iter().any(|(s, _)| *s) { session.get(&url0) } else { attohttpc::get(&url0) };
+        for (on_session, op) in &prog2 {
+            if !*on_session {
+                rb = match op {
+                    Set::Max(n) => rb.max_redirections(*n),
+                    Set::Follow(b) => rb.follow_redirects(*b),
+                };
+            }
         }
         match rb.send() {
             Ok(r) => Ok((r.status().as_u16(), r.url().to_string())),
@@ -330,7 +424,20 @@ pub fn scenario(g: &mut G, ctx: &RunCtx) -> RunReport {
                 }
             }
             let want_urls: Vec<String> = want_reqs.iter().map(|i| gr.nodes[*i].url.clone()).collect();
-            if let Some(b) = bad {
+            // every connection attempt (also one that was refused) must be to the host and port of a URL the
+            // reference interpreter requests: a Location that cannot be used is an error, not a place to dial
+            let stray = out.history.connects.iter().find(|c| {
+                !want_urls.iter().any(|u| {
+                    let (h, port, _) = urlref::http_target(u).unwrap_or_default();
+                    ip_of(&h) == c.addr.ip().to_string() && port == c.addr.port()
+                })
+            });
+            if let Some(c) = stray {
+                violation(
+                    format!("dialled-outside-the-chain:{}", gr.nodes.last().map(|n| n.form).unwrap_or("")),
+                    format!("a connection to {} was attempted, which no URL of the chain {:?} names (last Location {:?})", c.addr, want_urls, gr.nodes.last().and_then(|n| n.location.clone())),
+                )
+            } else if let Some(b) = bad {
                 violation("hop-malformed", b)
             } else if got.len() > eff_max as usize + 1 && follow {
                 violation("too-many-requests", format!("{} requests sent with max_redirections={}: {:?}", got.len(), eff_max, got))
@@ -375,14 +482,15 @@ pub fn scenario(g: &mut G, ctx: &RunCtx) -> RunReport {
     let forms: Vec<&str> = gr.nodes.iter().map(|n| n.form).collect();
     RunReport {
         verdict,
-        shape: format!("{:?}/max={}/follow={}/st={:?}", forms, if default_max { 99 } else { max }, follow, gr.nodes.iter().map(|n| n.status).collect::<Vec<_>>()),
+        shape: format!("{:?}/max={}/follow={}/st={:?}/setters={}", forms, if default_max { 99 } else { max }, follow, gr.nodes.iter().map(|n| n.status).collect::<Vec<_>>(), variant),
         nontrivial: gr.nodes.len() > 1,
         stats,
         sched_tape: out.sched_tape,
         describe: if ctx.describe {
             format!(
-                "max_redirections={} follow={} graph={:?}",
-                if default_max { "default(5)".to_string() } else { max.to_string() },
+                "setters(on session?, call)={:?} => max_redirections={} follow={} graph={:?}",
+                prog,
+                eff_max,
                 follow,
                 gr.nodes.iter().map(|n| format!("{} -> {} Location={:?} [{}]", n.url, n.status, n.location, n.form)).collect::<Vec<_>>()
             )
